@@ -151,6 +151,28 @@ static const char *path_of_fd(int fd) {
     return fdpath[fd];
 }
 
+// ------------------------------------------------------------------ syscall-level yield points
+//
+// The driver can register a hook that is called before every file-system
+// call that creates, truncates, renames or removes a file, provided the call
+// comes from the driver binary itself (bindgen + std) and not from inside
+// libclang/libLLVM (whose internal locks a parked thread must never hold).
+static void (*sys_hook)(const char *op, const char *path) = 0;
+
+void bvsim_set_sys_hook(void (*hook)(const char *, const char *)) { sys_hook = hook; }
+
+static int caller_is_driver(void *ret_addr) {
+    Dl_info info;
+    if (!dladdr(ret_addr, &info) || !info.dli_fname) return 0;
+    return strstr(info.dli_fname, "libclang") == 0 && strstr(info.dli_fname, "libLLVM") == 0 &&
+           strstr(info.dli_fname, "fsfault") == 0;
+}
+
+#define SYS_HOOK(op, path) \
+    do { \
+        if (sys_hook && (path) && caller_is_driver(__builtin_return_address(0))) sys_hook(op, path); \
+    } while (0)
+
 #define REAL(ret, name, ...) \
     static ret (*real_##name)(__VA_ARGS__) = 0; \
     if (!real_##name) real_##name = dlsym(RTLD_NEXT, #name)
@@ -176,6 +198,7 @@ static int do_open(const char *which, int dirfd, const char *path, int flags, mo
 }
 
 int open(const char *path, int flags, ...) {
+    if (flags & (O_CREAT | O_TRUNC | O_WRONLY | O_RDWR)) SYS_HOOK("open-write", path);
     mode_t mode = 0;
     if (flags & (O_CREAT | O_TMPFILE)) {
         va_list ap;
@@ -186,6 +209,7 @@ int open(const char *path, int flags, ...) {
     return do_open("open", AT_FDCWD, path, flags, mode);
 }
 int open64(const char *path, int flags, ...) {
+    if (flags & (O_CREAT | O_TRUNC | O_WRONLY | O_RDWR)) SYS_HOOK("open-write", path);
     mode_t mode = 0;
     if (flags & (O_CREAT | O_TMPFILE)) {
         va_list ap;
@@ -196,6 +220,7 @@ int open64(const char *path, int flags, ...) {
     return do_open("open", AT_FDCWD, path, flags | O_LARGEFILE, mode);
 }
 int openat(int dirfd, const char *path, int flags, ...) {
+    if (flags & (O_CREAT | O_TRUNC | O_WRONLY | O_RDWR)) SYS_HOOK("open-write", path);
     mode_t mode = 0;
     if (flags & (O_CREAT | O_TMPFILE)) {
         va_list ap;
@@ -206,6 +231,7 @@ int openat(int dirfd, const char *path, int flags, ...) {
     return do_open("openat", dirfd, path, flags, mode);
 }
 int openat64(int dirfd, const char *path, int flags, ...) {
+    if (flags & (O_CREAT | O_TRUNC | O_WRONLY | O_RDWR)) SYS_HOOK("open-write", path);
     mode_t mode = 0;
     if (flags & (O_CREAT | O_TMPFILE)) {
         va_list ap;
@@ -225,6 +251,27 @@ int close(int fd) {
         pthread_mutex_unlock(&mu);
     }
     return real_close(fd);
+}
+
+int rename(const char *from, const char *to) {
+    REAL(int, rename, const char *, const char *);
+    SYS_HOOK("rename", from);
+    return real_rename(from, to);
+}
+int renameat(int fd1, const char *from, int fd2, const char *to) {
+    REAL(int, renameat, int, const char *, int, const char *);
+    SYS_HOOK("rename", from);
+    return real_renameat(fd1, from, fd2, to);
+}
+int unlink(const char *path) {
+    REAL(int, unlink, const char *);
+    SYS_HOOK("unlink", path);
+    return real_unlink(path);
+}
+int unlinkat(int fd, const char *path, int flags) {
+    REAL(int, unlinkat, int, const char *, int);
+    SYS_HOOK("unlink", path);
+    return real_unlinkat(fd, path, flags);
 }
 
 // ------------------------------------------------------------------ stat family
@@ -270,8 +317,12 @@ int fstatat64(int dirfd, const char *path, struct stat64 *st, int flags) {
 }
 int statx(int dirfd, const char *path, int flags, unsigned int mask, struct statx *stx) {
     REAL(int, statx, int, const char *, int, unsigned int, struct statx *);
-    if (path && path[0]) STAT_FAULT(path);
-    else if (path_of_fd(dirfd)) STAT_FAULT(path_of_fd(dirfd));
+    // glibc declares `path` nonnull, but Rust's std probes for statx with a
+    // NULL path: keep the compiler from dropping the check.
+    const char *volatile vp = path;
+    const char *p = vp;
+    if (p && p[0]) STAT_FAULT(p);
+    else if (p && path_of_fd(dirfd)) STAT_FAULT(path_of_fd(dirfd));
     return real_statx(dirfd, path, flags, mask, stx);
 }
 int fstat(int fd, struct stat *st) {
@@ -391,6 +442,16 @@ void *mmap64(void *addr, size_t len, int prot, int flags, int fd, off64_t off) {
 
 static uint64_t gr_state = 0;
 static int gr_on = -1;
+
+// Called by the driver at the start of a scenario so that the hash keys of a
+// scenario are a function of the scenario alone, not of what the worker
+// process ran before.
+void bvsim_getrandom_reseed(uint64_t seed) {
+    pthread_mutex_lock(&mu);
+    gr_on = 1;
+    gr_state = seed;
+    pthread_mutex_unlock(&mu);
+}
 
 ssize_t getrandom(void *buf, size_t len, unsigned int flags) {
     REAL(ssize_t, getrandom, void *, size_t, unsigned int);
